@@ -105,6 +105,11 @@ ActionExecutor::ActionId ActionExecutor::allocActionId() { return ++action_id_al
 void ActionExecutor::schedule() {
   TBOX_ASSERT(cb_level_ == 0);
 
+  //! cancelCurrent()/cancel() 可能已把当前队列清空，此时 curr_action_deque_index_ 不再有效
+  if (curr_action_deque_index_ != -1 &&
+      action_deque_array_.at(curr_action_deque_index_).empty())
+    curr_action_deque_index_ = -1;
+
   while (true) {
     //! 找出优先级最高，且不为空的队列
     int ready_deque_index = -1;
